@@ -223,8 +223,8 @@ struct qs_agent {
 			if(ctr < node->_target_qs_counter)
 				break;
 			node->_target_qs_counter = 0;
-			node->on_grace_period(node);
 			_pending.pop_front();
+			node->on_grace_period(node);
 		}
 	}
 
